@@ -167,7 +167,7 @@ def install_close_monitor(world):
 
 SMALL = ('mul_cmp', 'mod_race', 'reverse_await', 'subset_output', 'transfer_graph', 'barrier_top',
          'barrier_nested', 'early_return', 'user_coro', 'convert', 'small_field', 'throttle',
-         'zero_tests', 'linalg', 'survivors', 'no_barrier_shutdown')
+         'zero_tests', 'linalg', 'survivors', 'no_barrier_shutdown', 'restart_threshold')
 MEDIUM = ('nopc_ops_race', 'randoms', 'mutate_after_call', 'pc_ops_race0', 'pc_ops_race1', 'pc_ops_race2', 'pc_ops_race3')
 # everything else is LARGE (thousands of steps per execution)
 # approximate number of single deviations of the default run, for slicing only
